@@ -554,6 +554,33 @@ impl Srv {
                     }
                 }
             }
+            "http_raw" => {
+                // one HTTP/1.1 request written by hand (no client library in between): method, path, optional bearer token and JSON body
+                use tokio::io::{AsyncReadExt, AsyncWriteExt};
+                let body = op.get("body").and_then(|v| v.as_str()).unwrap_or("");
+                let mut req = format!("{} {} HTTP/1.1\r\nHost: localhost\r\nConnection: close\r\n", s(op, "method"), s(op, "path"));
+                if let Some(b) = op.get("bearer").and_then(|v| v.as_str()) {
+                    req.push_str(&format!("Authorization: Bearer {b}\r\n"));
+                }
+                if !body.is_empty() {
+                    req.push_str(&format!("Content-Type: application/json\r\nContent-Length: {}\r\n", body.len()));
+                }
+                req.push_str("\r\n");
+                req.push_str(body);
+                match tokio::net::TcpStream::connect(self.http_addr).await {
+                    Err(e) => json!({"r": "err", "name": format!("connect: {e}")}),
+                    Ok(mut sock) => {
+                        if sock.write_all(req.as_bytes()).await.is_err() {
+                            return json!({"r": "err", "name": "write_failed"});
+                        }
+                        let mut buf = vec![];
+                        let _ = tokio::time::timeout(std::time::Duration::from_millis(3000), sock.read_to_end(&mut buf)).await;
+                        let text = String::from_utf8_lossy(&buf).to_string();
+                        let status = text.split_whitespace().nth(1).and_then(|x| x.parse::<u32>().ok()).unwrap_or(0);
+                        json!({"r": "ok", "status": status, "len": buf.len()})
+                    }
+                }
+            }
             "grep" => {
                 // byte search of every file under the data directory for clear-text secrets
                 let mut needles: Vec<String> = op.get("needles").and_then(|v| v.as_array()).map(|a| a.iter().map(|x| x.as_str().unwrap().to_string()).collect()).unwrap_or_default();
